@@ -15,10 +15,18 @@ Five kinds of cases:
             again, and by the instance that answered all queries first; every file must satisfy the same clauses.
             The 'scan count' of the metadata record is 0 (not stored: reconstructed on demand) or the true count.
   mixin     TiffExport.export_tiff itself, fed by a minimal provider with arbitrary pixel values (negative,
-            fractional, at and beyond every dtype limit) and arbitrary timestamp ranges.
-                                                                       model ops: c18.cast, c18.encode, c18.roundtrip
-  datetime  _get_page_timestamps on arbitrary (also malformed) DateTime strings.   model op: c18.decode
-  legacy    _frame_timestamps_from_exposure_timestamps on arbitrary ranges.        model op: c18.legacy
+            fractional, at and beyond every dtype limit) and arbitrary timestamp ranges (ops 0-2), AND the same clauses
+            through the public API (ops 3-5): the values as the float photon counts of a real Scan exported with
+            Scan.export_tiff(dtype, clip); the ranges / exposures as the pages of a camera TIFF written with tifffile,
+            opened with ImageStack, exported, read back raw and reopened.
+                                                                       model ops: (c18.cast, c18.encode, c18.roundtrip) x 2
+  datetime  _get_page_timestamps on arbitrary (also malformed) DateTime strings, called directly and as the tag of a
+            TIFF page read through ImageStack(file).frame_timestamp_ranges.          model op: c18.decode x 2
+  legacy    _frame_timestamps_from_exposure_timestamps on arbitrary ranges, called directly and as the tags of a
+            Pylake < 1.3.2 export read through ImageStack(file).frame_timestamp_ranges.   model op: c18.legacy x 2
+
+Private names of pylake are touched only while they are reachable (see 'reaching pylake' below): an observation that
+cannot be made is answered "?" and ignored; the public routes keep every clause tied when a refactoring renames them.
 """
 import atexit
 import itertools
@@ -42,6 +50,77 @@ from common import errname as _errname
 
 def errname(e):
     return "OverflowError" if isinstance(e, OverflowError) else _errname(e)
+
+
+# ------------------------------------------------------------------ reaching pylake
+# Robustness against harmless refactorings (renamed / moved private helpers must neither raise an alarm nor break the tie):
+#  * the export mixin is found through the PUBLIC ImageStack (the base class that defines export_tiff), wherever pylake
+#    keeps it and whatever it is called;
+#  * its four provider hooks (`_tiff_*`, an anchored mechanism without a public equivalent) are overridden only while the
+#    mixin still has them; otherwise the three direct observations of a mixin case are "?" and the same clauses stay
+#    tied through the public API (ops 3-5 of a mixin case: Scan.export_tiff on float photon counts, ImageStack re-export);
+#  * the private parsing helpers of detail/widefield.py are called only while reachable ("?" otherwise); every datetime /
+#    legacy case is ALSO observed through ImageStack(file).frame_timestamp_ranges on a file written with tifffile;
+#  * the TiffStack behind an ImageStack (argument of the public ImageStack.from_dataset) is located by what from_dataset
+#    does with it, not by the attribute name.
+# "?" = an observation that could not be made: ignored by agree / oracle / nontrivial, never an implementation answer.
+HOOKS = ("_tiff_frames", "_tiff_image_metadata", "_tiff_timestamp_ranges", "_tiff_writer_kwargs")
+_REACH = {}
+
+
+class Unreachable(Exception):
+    """a private member the harness needs for an observation is not reachable (renamed / moved): skip the observation"""
+
+
+def private(module, name):
+    """a private helper of pylake, or None when it cannot be reached under that name any more"""
+    key = (module, name)
+    if key not in _REACH:
+        try:
+            import importlib
+
+            _REACH[key] = getattr(importlib.import_module(module), name)
+        except (ImportError, AttributeError):
+            _REACH[key] = None
+    return _REACH[key]
+
+
+def export_mixin():
+    """the class that defines the public export_tiff(filename, *, dtype, clip) - read off the MRO of the public ImageStack -
+    or None when it is not reachable or does not have the four `_tiff_*` provider hooks any more"""
+    if "mixin" not in _REACH:
+        from lumicks.pylake import ImageStack
+
+        cls = next((k for k in ImageStack.__mro__[1:] if "export_tiff" in vars(k)), None)
+        if cls is None:
+            cls = private("lumicks.pylake.detail.imaging_mixins", "TiffExport")
+        if cls is not None and not all(callable(getattr(cls, h, None)) for h in HOOKS):
+            cls = None
+        _REACH["mixin"] = cls
+    return _REACH["mixin"]
+
+
+def stack_source(st):
+    """the object an ImageStack reads its pages from, as taken by the public ImageStack.from_dataset(data, ...): the
+    attribute holding it is private bookkeeping, so it is found by what from_dataset does with `data` (a probe object is
+    looked up again on the instance from_dataset returns); `_src` as a fallback; Unreachable otherwise"""
+    if "src_attr" not in _REACH:
+        name = None
+        try:
+            probe = object()
+            made = type(st).from_dataset(probe, "probe", 0, 0, 1)
+            name = next((k for k, v in vars(made).items() if v is probe), None)
+        except Exception:
+            name = None
+        _REACH["src_attr"] = name or "_src"
+    try:
+        return getattr(st, _REACH["src_attr"])
+    except AttributeError:
+        raise Unreachable(_REACH["src_attr"])
+
+
+def observed(ia):
+    return [a for a in ia if a != "?"]
 
 
 PROP = "C18"
@@ -88,8 +167,12 @@ RULE = (
     "(image, num_frames, frame ranges, pixel size) were answered - all files judged by the same clauses on every page. mixin: export_tiff driven "
     "directly with values from the boundary set of every dtype (negative, fractional, 255/256, 65535/65536, 2^24+-1, "
     "float32 max and beyond, subnormal, float32 ties) and timestamp ranges at 0, 1, 10^k, 2^63-1 and negative, multi-page exports whose "
-    "exposure differs from page to page by 0 / 1 ns / tens of ns / a relative 1e-9..1e-3. datetime: "
-    "strings from the grammar, with leading zeros, final newline, and malformed ones. Non-trivial: a stack export with a "
+    "exposure differs from page to page by 0 / 1 ns / tens of ns / a relative 1e-9..1e-3; every such case also through the public API "
+    "(the values as float photon counts of a real Scan -> Scan.export_tiff(dtype, clip), whenever the scan presents exactly these values; the "
+    "ranges / exposures as pages of a tifffile-written camera TIFF -> ImageStack -> export_tiff -> raw re-read -> reopen). datetime: "
+    "strings from the grammar, with leading zeros, final newline, and malformed ones, parsed by the direct call and as the tag of a TIFF page "
+    "read through ImageStack (strings that tifffile hands back unchanged); legacy ranges by the direct call and as a legacy file read through ImageStack. "
+    "An observation whose private helper is not reachable (renamed by a refactoring) or that has no public route is '?': not compared, not counted. Non-trivial: a stack export with a "
     "non-empty selection program or a legacy / variable-exposure / multi-file stack; every confocal case (a complete "
     "export -> raw re-read -> reopen -> re-export x2 of a real object with a dtype cast); a mixin cast with a value "
     "outside the range, a fractional value or float32 rounding; every DateTime string and legacy range list."
@@ -106,6 +189,8 @@ ASSUMPTIONS = [
     "scan-axes metadata written for a cropped / down-sampled confocal object is that of the source object (pylake writes self._metadata.scan_axes unchanged); only the TIFF resolution tags follow the derived pixel size — recorded as observation, not asserted beyond that",
     "scans have at least 2 pixels along both axes when built (pylake squeezes singleton axes)",
     "pixel values of generated confocal images stay below 2^53 (exact in float64)",
+    "public route of a mixin cast: low_level.create_confocal_object accepts float photon counts; the route is used only when get_image() of that scan returns exactly the case's values (otherwise '?')",
+    "public route of a DateTime string: only strings that tifffile writes and reads back unchanged as tag 306 (it strips white space / NULs at the ends)",
 ]
 
 _TMP = None
@@ -210,7 +295,7 @@ def apply_stack_op(st, op):
     if k == "g":
         return st[tuple(it if isinstance(it, int) else slice(*it) for it in op[1:])]
     if k == "z":
-        return ImageStack.from_dataset(st._src, st.name, op[1], op[2], op[3])
+        return ImageStack.from_dataset(stack_source(st), st.name, op[1], op[2], op[3])
     raise ValueError(k)
 
 
@@ -274,6 +359,9 @@ def impl_stack(case):
                     cur = apply_stack_op(cur, op)
                 obs["src_pixelsize"] = cur.pixelsize_um
                 cur.export_tiff(p1)
+            except Unreachable as e:
+                obs["unreachable"] = str(e)
+                return ["?", "?"]
             except Exception as e:
                 obs["error"] = repr(e)
                 return [errname(e), errname(e)]
@@ -396,6 +484,8 @@ def expected_pages(spec, pages):
 
 def oracle_stack(case, ia):
     spec, obs = case["spec"], case.get("_obs", {})
+    if not observed(ia):
+        return None  # from_dataset could not be handed the stack's source (private bookkeeping, not reachable)
     try:
         pages, rows, cols = reference_selection(spec, case["prog"])
         exp = expected_pages(spec, pages)
@@ -442,7 +532,7 @@ def oracle_stack(case, ia):
     if obs["re_exp"] != [(a, a + e) for a, _, e in exp]:
         return f"reopen: exposure ranges {obs['re_exp'][:3]} != exported {[(a, a + e) for a, _, e in exp][:3]}"
     want_px = None if spec["pixelsize_nm"] is None else [spec["pixelsize_nm"] / 1000] * 2
-    if obs["re_pixelsize"] != want_px or obs["src_pixelsize"] != want_px:
+    if not same_sizes(obs["re_pixelsize"], want_px) or not same_sizes(obs["src_pixelsize"], want_px):
         return f"calibration: pixel size {obs['re_pixelsize']} after the round trip, {want_px} in the source"
     # exported again
     if "raw2" not in obs:
@@ -693,6 +783,29 @@ def same_page(p, q):
             and p["xres"] == q["xres"] and p["yres"] == q["yres"] and p["unit"] == q["unit"] and p["photometric"] == q["photometric"])
 
 
+def same_size(a, b):
+    """pixel sizes in um are quotients nm/1000 taken by the code: compared within the rel 1e-9 of the number policy (a
+    last-bit difference, e.g. nm*1e-3, is the same pixel size)"""
+    if a is None or b is None:
+        return a is None and b is None
+    return isinstance(a, (int, float)) and isinstance(b, (int, float)) and math.isclose(a, b, rel_tol=1e-9, abs_tol=0.0)
+
+
+def same_axes(got, want):
+    if not isinstance(got, list) or len(got) != len(want) or not all(isinstance(g, dict) for g in got):
+        return False
+    for g, w in zip(got, want):
+        if set(g) != set(w) or any(g[k] != w[k] for k in w if k != "Pixel size (um)") or not same_size(g["Pixel size (um)"], w["Pixel size (um)"]):
+            return False
+    return True
+
+
+def same_sizes(a, b):
+    if a is None or b is None:
+        return a is None and b is None
+    return len(a) == len(b) and all(same_size(x, y) for x, y in zip(a, b))
+
+
 def check_written(case, obs, raw1, want, ref_times):
     """the property clauses on ONE written file (raw re-read `raw1`) of the (derived) object: pixels = cast image,
     DateTime / exposure per page, scan metadata, calibration. Expectations come from the case and from the answers of
@@ -737,7 +850,7 @@ def check_written(case, obs, raw1, want, ref_times):
         return f"metadata: the object reports num_frames {obs['kind_frames']}, its image has {frames.shape[0]} frames"
     for i, p in enumerate(raw1):
         d = json.loads(p["desc"])
-        if d.get("Scan axes") != want_axes:
+        if not same_axes(d.get("Scan axes"), want_axes):
             return f"metadata: scan axes {d.get('Scan axes')} != {want_axes} (page {i})"
         if d.get("Camera") != ("ConfocalKymo" if case["kind"] == "kymo" else "ConfocalScan") or d.get("Fast axis") != "xyz"[axes[0][0]]:
             return f"metadata: camera/fast axis {d.get('Camera')}/{d.get('Fast axis')} (page {i})"
@@ -826,11 +939,42 @@ def oracle_confocal(case, ia):
 # ------------------------------------------------------------------ mixin kind: TiffExport.export_tiff driven directly
 
 
-def impl_mixin(case):
-    from lumicks.pylake.detail.imaging_mixins import TiffExport
-    from lumicks.pylake.detail.widefield import _get_page_timestamps
+def write_pages(path, datetimes, software, descriptions, shape=(1, 2)):
+    """a grey uint8 camera TIFF written with tifffile: one page per DateTime string (tag 306, as Bluelake writes it)"""
     import tifffile
 
+    with tifffile.TiffWriter(path) as tif:
+        for dt, d in zip(datetimes, descriptions):
+            tif.write(
+                np.ones(shape, dtype=np.uint8), description=json.dumps(d, indent=4), software=software, metadata=None,
+                contiguous=False, photometric="minisblack", extratags=((306, "s", len(dt), dt, False),),
+            )
+
+
+def last_range_reopened(path):
+    """'start:stop' of the last page as ImageStack(file) reports it (TiffFrame.frame_timestamp_range), or the error name; a
+    first page whose tag cannot be parsed is refused on opening with a RuntimeError - the public face of the ValueError"""
+    from lumicks.pylake import ImageStack
+
+    try:
+        st = ImageStack(path)
+    except RuntimeError:
+        return "ValueError"
+    try:
+        s, e = st.frame_timestamp_ranges(include_dead_time=True)[-1]
+        return f"{int(s)}:{int(e)}"
+    finally:
+        st.close()
+
+
+def mixin_direct(case, obs):
+    """TiffExport.export_tiff fed by a minimal provider (ops 0-2); "?" when the mixin / its hooks are not reachable"""
+    import tifffile
+
+    TiffExport = export_mixin()
+    if TiffExport is None:
+        obs["direct_unreachable"] = True
+        return ["?", "?", "?"]
     n, h, w, c = case["shape"]
     vals = [Fraction(v) for v in case["values"]]
     if case.get("int_input"):
@@ -853,68 +997,203 @@ def impl_mixin(case):
         def _tiff_writer_kwargs(self):
             return {"software": "verif", "photometric": "rgb" if c == 3 else "minisblack"}
 
-    obs = case["_obs"] = {}
     p1 = fresh("m1")
     try:
-        with warnings.catch_warnings():
-            warnings.simplefilter("ignore")
-            try:
-                Provider().export_tiff(p1, dtype=DT_NP[case["dtype"]], clip=case["clip"])
-            except Exception as e:
-                obs["error"] = repr(e)
-                return [errname(e), "not-written", "not-written"]
-            raw = read_raw(p1)
-            obs["raw"] = raw
-            a1 = "ok " + enc_ratlist([x for p in raw for x in arr_rats(p["img"])])
-            a2 = enc_list([ord(ch) for ch in raw[0]["dt"]])
-            try:
+        try:
+            Provider().export_tiff(p1, dtype=DT_NP[case["dtype"]], clip=case["clip"])
+        except Exception as e:
+            obs["error"] = repr(e)
+            return [errname(e), "not-written", "not-written"]
+        raw = read_raw(p1)
+        obs["raw"] = raw
+        a1 = "ok " + enc_ratlist([x for p in raw for x in arr_rats(p["img"])])
+        a2 = enc_list([ord(ch) for ch in raw[0]["dt"]])
+        try:
+            parse = private("lumicks.pylake.detail.widefield", "_get_page_timestamps")
+            if parse is not None:
                 with tifffile.TiffFile(p1) as t:
-                    s, e = _get_page_timestamps(t.pages[len(raw) - 1])
+                    s, e = parse(t.pages[len(raw) - 1])
                 a3 = f"{int(s)}:{int(e)}"
-            except Exception as e:
-                a3 = errname(e)
-            return [a1, a2, a3]
+            else:  # the same reading through the public ImageStack
+                a3 = last_range_reopened(p1)
+        except Exception as e:
+            a3 = errname(e)
+        return [a1, a2, a3]
     finally:
         rm(p1)
+
+
+def mixin_public_cast(case, obs):
+    """the cast clause through the public API (op 3): a real one-channel-per-value Scan whose (float) photon counts ARE
+    the case's values - value j is the count of colour j%3 in pixel j//3, one sample per pixel, 2x2 pixels per frame, the
+    rest 0 - exported with Scan.export_tiff(dtype, clip) and read back raw.  "?" when the scan does not present exactly
+    these values (pylake reconstructs pixels from running sums, so magnitudes far apart do not survive side by side:
+    C02's business) or when integer input is asked for (the confocal kind exports integer counts)."""
+    if case.get("int_input"):
+        return "?"
+    from lumicks.pylake.low_level import create_confocal_object
+
+    vals = [float(Fraction(v)) for v in case["values"]]
+    m = len(vals)
+    pixels = -(-m // 3)
+    frames = max(1, -(-pixels // 4))
+    iw = bc.infowave(2, 2 * frames, 1, lead_in=1, dead=1, L=2)
+    chans = {col: [] for col in bc.COLORS}
+    q = 0
+    for code in iw:
+        for ci, col in enumerate(bc.COLORS):
+            j = 3 * q + ci
+            chans[col].append(vals[j] if (code == bc.BOUNDARY and j < m) else 0.0)
+        q += code == bc.BOUNDARY
+    p = fresh("mp")
+    try:
+        try:
+            obj = create_confocal_object(
+                "pub", bc.continuous(iw, bc.START, bc.DT, dtype=np.uint8), bc.confocal_json([(0, 2, 100.0), (1, 2, 150.0)], 0),
+                **{f"{col}_channel": bc.continuous(chans[col], bc.START, bc.DT, dtype=np.float64) for col in bc.COLORS},
+            )
+            img = np.asarray(obj.get_image(), dtype=np.float64).ravel().tolist()
+        except Exception as e:
+            obs["pub_build_error"] = repr(e)
+            return "?"
+        if len(img) != 12 * frames or img[:m] != vals or any(x != 0 for x in img[m:]):
+            return "?"
+        try:
+            obj.export_tiff(p, dtype=DT_NP[case["dtype"]], clip=case["clip"])
+        except Exception as e:
+            obs["pub_error"] = repr(e)
+            return errname(e)
+        flat = [x for pg in read_raw(p) for x in arr_rats(pg["img"])]
+        obs["pub_flat"] = flat
+        return "ok " + enc_ratlist(flat[:m])
+    finally:
+        rm(p)
+
+
+def mixin_public_ranges(case, obs):
+    """the DateTime / exposure clauses through the public API (ops 4, 5): a camera TIFF written with tifffile whose pages
+    carry the case's ranges and exposures, opened with ImageStack, exported, read back raw and reopened.  "?" when a range
+    cannot be written as a tag that ImageStack reads (negative / beyond int64: the datetime kind's business)."""
+    from lumicks.pylake import ImageStack
+
+    n = case["shape"][0]
+    dead, exp = case["dead"][:n], case["exp"][:n]
+    if not all(0 <= a < 2**63 and 0 <= b < 2**63 for a, b in dead):
+        return ["?", "?"]
+    descs, written = [], []
+    for (a, _), (e0, e1) in zip(dead, exp):
+        e = e1 - e0
+        d = {"Camera": "verif"}
+        if 0 <= e < 10**15 and a + e < 2**63:
+            d["Exposure time (ms)"] = e * 1e-6
+            written.append(e)
+        else:
+            written.append(None)
+        descs.append(d)
+    obs["pub_exposures"] = written
+    p1, p2 = fresh("mt1"), fresh("mt2")
+    try:
+        write_pages(p1, [f"{a}:{b}" for a, b in dead], "Bluelake verif", descs)
+        try:
+            st = ImageStack(p1)
+            try:
+                st.export_tiff(p2)
+            finally:
+                st.close()
+            raw = read_raw(p2)
+            obs["pub_raw"] = raw
+            return [enc_list([ord(ch) for ch in raw[0]["dt"]]), last_range_reopened(p2)]
+        except Exception as e:
+            obs["pub_ranges_error"] = repr(e)
+            return [errname(e), errname(e)]
+    finally:
+        rm(p1, p2)
+
+
+def impl_mixin(case):
+    obs = case["_obs"] = {}
+    with warnings.catch_warnings():
+        warnings.simplefilter("ignore")
+        return mixin_direct(case, obs) + [mixin_public_cast(case, obs)] + mixin_public_ranges(case, obs)
 
 
 def ops_mixin(case):
     vals = enc_ratlist([Fraction(v) for v in case["values"]])
     a, b = case["dead"][0]
     la, lb = case["dead"][case["shape"][0] - 1]
-    return [
+    three = [
         f"c18.cast {case['dtype']} {enc_bool(case['clip'])} {vals}",
         f"c18.encode {a} {b}",
         f"c18.roundtrip {la} {lb}",
     ]
+    return three + three  # ops 0-2: TiffExport driven directly; ops 3-5: the same clauses through the public API
+
+
+PUBLIC = " [through the public API: {}]"
 
 
 def oracle_mixin(case, ia):
     obs = case.get("_obs", {})
     vals = [Fraction(v) for v in case["values"]]
-    want = cast_reference(vals, case["dtype"], case["clip"])
-    if want == "RuntimeError":
-        return None if ia[0] == "RuntimeError" else f"cast-refusal: values do not fit {case['dtype']} (clip=False) but export gave {ia[0][:80]}"
-    if "raw" not in obs:
-        return f"export-refused: all values fit (or clip=True) but export raised {ia[0]}: {obs.get('error')}"
-    got = [x for p in obs["raw"] for x in arr_rats(p["img"])]
-    if got != want:
-        bad = next((i for i, (g, w_) in enumerate(zip(got, want)) if g != w_), -1)
-        return f"pixels: value #{bad} ({vals[bad]}) written as {got[bad]}, expected {want[bad]} for {case['dtype']} clip={case['clip']}"
     n = case["shape"][0]
-    for i, p in enumerate(obs["raw"]):
-        a, b = case["dead"][i]
-        if p["dt"] != f"{a}:{b}":
-            return f"timestamps: page {i} carries {p['dt']!r} for range {a}:{b}"
-        e = case["exp"][i][1] - case["exp"][i][0]
-        if 0 <= e < 10**15 and exposure_ns(p) != e:
-            return f"exposure: page {i} carries {exposure_ns(p)} ns for {e} ns"
     la, lb = case["dead"][n - 1]
-    if la >= 0 and lb >= 0 and la < 2**63 and lb < 2**63:
-        if ia[2] != f"{la}:{lb}":
-            return f"timestamps: last page written for {la}:{lb} is read back as {ia[2]}"
-    elif ia[2] not in ("ValueError", "OverflowError"):
-        return f"timestamps: range {la}:{lb} cannot be represented, but the reader returned {ia[2]}"
+    want = cast_reference(vals, case["dtype"], case["clip"])
+    # ops 0-2: TiffExport.export_tiff fed by the minimal provider (skipped while the mixin's hooks are not reachable)
+    if observed(ia[:3]):
+        if want == "RuntimeError":
+            if ia[0] != "RuntimeError":
+                return f"cast-refusal: values do not fit {case['dtype']} (clip=False) but export gave {ia[0][:80]}"
+        else:
+            if "raw" not in obs:
+                return f"export-refused: all values fit (or clip=True) but export raised {ia[0]}: {obs.get('error')}"
+            got = [x for p in obs["raw"] for x in arr_rats(p["img"])]
+            if got != want:
+                bad = next((i for i, (g, w_) in enumerate(zip(got, want)) if g != w_), -1)
+                return f"pixels: value #{bad} ({vals[bad]}) written as {got[bad]}, expected {want[bad]} for {case['dtype']} clip={case['clip']}"
+            for i, p in enumerate(obs["raw"]):
+                a, b = case["dead"][i]
+                if p["dt"] != f"{a}:{b}":
+                    return f"timestamps: page {i} carries {p['dt']!r} for range {a}:{b}"
+                e = case["exp"][i][1] - case["exp"][i][0]
+                if 0 <= e < 10**15 and exposure_ns(p) != e:
+                    return f"exposure: page {i} carries {exposure_ns(p)} ns for {e} ns"
+            if la >= 0 and lb >= 0 and la < 2**63 and lb < 2**63:
+                if ia[2] != f"{la}:{lb}":
+                    return f"timestamps: last page written for {la}:{lb} is read back as {ia[2]}"
+            elif ia[2] not in ("ValueError", "OverflowError"):
+                return f"timestamps: range {la}:{lb} cannot be represented, but the reader returned {ia[2]}"
+    # op 3: the same cast through Scan.export_tiff on a scan whose photon counts are the values
+    if ia[3] != "?":
+        via = PUBLIC.format("Scan.export_tiff of a scan with these photon counts")
+        if want == "RuntimeError":
+            if ia[3] != "RuntimeError":
+                return f"cast-refusal: values do not fit {case['dtype']} (clip=False) but export gave {ia[3][:80]}" + via
+        elif "pub_flat" not in obs:
+            return f"export-refused: all values fit (or clip=True) but export raised {ia[3]}: {obs.get('pub_error')}" + via
+        else:
+            got = obs["pub_flat"]
+            if got[: len(want)] != want:
+                bad = next((i for i, (g, w_) in enumerate(zip(got, want)) if g != w_), -1)
+                return f"pixels: value #{bad} ({vals[bad]}) written as {got[bad]}, expected {want[bad]} for {case['dtype']} clip={case['clip']}" + via
+            if any(x != 0 for x in got[len(want):]):
+                return f"pixels: an empty pixel (0 photons) was written as a non-zero value for {case['dtype']} clip={case['clip']}" + via
+    # ops 4-5: the same ranges / exposures through ImageStack(file written with tifffile).export_tiff
+    if observed(ia[4:6]):
+        via = PUBLIC.format("ImageStack.export_tiff of a camera TIFF with these page ranges")
+        if "pub_raw" not in obs:
+            return f"export-refused: a readable camera TIFF could not be opened / exported: {obs.get('pub_ranges_error')}" + via
+        raw = obs["pub_raw"]
+        if len(raw) != n:
+            return f"selection: {len(raw)} pages written for {n} pages" + via
+        for i, p in enumerate(raw):
+            a, b = case["dead"][i]
+            if p["dt"] != f"{a}:{b}":
+                return f"timestamps: page {i} carries {p['dt']!r} for range {a}:{b}" + via
+            e = obs["pub_exposures"][i]
+            if e is not None and exposure_ns(p) != e:
+                return f"exposure: page {i} carries {exposure_ns(p)} ns for {e} ns" + via
+        if ia[5] != f"{la}:{lb}":
+            return f"timestamps: last page written for {la}:{lb} is read back as {ia[5]}" + via
     return None
 
 
@@ -932,13 +1211,45 @@ class _Page:
 
 
 def impl_datetime(case):
-    from lumicks.pylake.detail.widefield import _get_page_timestamps
+    """[the private parser called directly ("?" when not reachable), the same string read through the public API]"""
+    parse = private("lumicks.pylake.detail.widefield", "_get_page_timestamps")
+    if parse is None:
+        direct = "?"
+    else:
+        try:
+            a, b = parse(_Page(case["s"]))
+            direct = f"{int(a)}:{int(b)}"
+        except Exception as e:
+            direct = errname(e)
+    return [direct, datetime_public(case["s"])]
 
+
+def datetime_public(s):
+    """the string as the DateTime tag of the SECOND page of a camera TIFF written with tifffile (the first page is well
+    formed, so that the file opens), read through ImageStack(file).frame_timestamp_ranges(include_dead_time=True), i.e.
+    TiffFrame.frame_timestamp_range.  "?" when tifffile does not hand the string back unchanged (it strips white space
+    and NULs at the ends of ASCII tags): such strings reach pylake's parser only in the direct call."""
+    import tifffile
+
+    p = fresh("dt")
     try:
-        a, b = _get_page_timestamps(_Page(case["s"]))
-        return [f"{int(a)}:{int(b)}"]
-    except Exception as e:
-        return [errname(e)]
+        with warnings.catch_warnings():
+            warnings.simplefilter("ignore")
+            try:
+                write_pages(p, [f"{bt.T0}:{bt.T0 + 1}", s], "Bluelake verif", [{"Camera": "verif"}] * 2)
+                with tifffile.TiffFile(p) as t:
+                    tg = t.pages[1].tags
+                    back = tg["DateTime"].value if "DateTime" in tg else None
+            except Exception:
+                return "?"  # tifffile cannot write / read such a tag
+            if back != s:
+                return "?"
+            try:
+                return last_range_reopened(p)
+            except Exception as e:
+                return errname(e)
+    finally:
+        rm(p)
 
 
 def oracle_datetime(case, ia):
@@ -950,23 +1261,57 @@ def oracle_datetime(case, ia):
         want = "OverflowError"
     else:
         want = "ValueError"
-    return None if ia[0] == want else f"datetime-parse: {s!r} read as {ia[0]}, expected {want}"
+    if ia[0] not in ("?", want):
+        return f"datetime-parse: {s!r} read as {ia[0]}, expected {want}"
+    if ia[1] not in ("?", want):
+        return f"datetime-parse: {s!r} read as {ia[1]}, expected {want}" + PUBLIC.format("tag of a TIFF page opened with ImageStack")
+    return None
 
 
 def impl_legacy(case):
-    from lumicks.pylake.detail.widefield import _frame_timestamps_from_exposure_timestamps
+    """[the private helper called directly ("?" when not reachable), the same ranges through the public API]"""
+    f = private("lumicks.pylake.detail.widefield", "_frame_timestamps_from_exposure_timestamps")
+    if f is None:
+        direct = "?"
+    else:
+        try:
+            r = f([tuple(x) for x in case["ranges"]])
+            direct = "[" + ",".join(f"{int(a)}:{int(b)}" for a, b in r) + "]"
+        except Exception as e:
+            direct = errname(e)
+    return [direct, legacy_public(case["ranges"])]
 
+
+def legacy_public(ranges):
+    """the ranges as the DateTime tags of a TIFF exported by Pylake < 1.3.2 (Software tag names Pylake, no exposure metadata:
+    the tags hold the exposure ranges), read with ImageStack(file).frame_timestamp_ranges(include_dead_time=True).  "?"
+    for no pages (no such file) and for ranges that cannot be written as tags."""
+    from lumicks.pylake import ImageStack
+
+    if not ranges or not all(0 <= a < 2**63 and 0 <= b < 2**63 for a, b in ranges):
+        return "?"
+    p = fresh("lg")
     try:
-        r = _frame_timestamps_from_exposure_timestamps([tuple(x) for x in case["ranges"]])
-        return ["[" + ",".join(f"{int(a)}:{int(b)}" for a, b in r) + "]"]
-    except Exception as e:
-        return [errname(e)]
+        with warnings.catch_warnings():
+            warnings.simplefilter("ignore")
+            write_pages(p, [f"{a}:{b}" for a, b in ranges], "Pylake v1.3.0", [{"Camera": "verif"}] * len(ranges))
+            try:
+                st = ImageStack(p)
+                try:
+                    r = st.frame_timestamp_ranges(include_dead_time=True)
+                finally:
+                    st.close()
+                return "[" + ",".join(f"{int(a)}:{int(b)}" for a, b in r) + "]"
+            except Exception as e:
+                return errname(e)
+    finally:
+        rm(p)
 
 
 def oracle_legacy(case, ia):
     r = case["ranges"]
     if not r:
-        return None if ia[0] == "IndexError" else f"legacy: empty input gave {ia[0]}"
+        return None if ia[0] in ("?", "IndexError") else f"legacy: empty input gave {ia[0]}"
     want = []
     for i, (a, b) in enumerate(r):
         if i + 1 < len(r):
@@ -976,7 +1321,11 @@ def oracle_legacy(case, ia):
         else:
             want.append((a, b))
     w = "[" + ",".join(f"{a}:{b}" for a, b in want) + "]"
-    return None if ia[0] == w else f"legacy: ranges {ia[0][:120]} but start-to-next-start gives {w[:120]}"
+    if ia[0] not in ("?", w):
+        return f"legacy: ranges {ia[0][:120]} but start-to-next-start gives {w[:120]}"
+    if ia[1] not in ("?", w):
+        return f"legacy: ranges {ia[1][:120]} but start-to-next-start gives {w[:120]}" + PUBLIC.format("ImageStack on a file exported by Pylake < 1.3.2")
+    return None
 
 
 # ------------------------------------------------------------------ module interface
@@ -1005,14 +1354,16 @@ def ops(case):
         return ops_confocal(case)
     if k == "mixin":
         return ops_mixin(case)
-    if k == "datetime":
-        return [f"c18.decode {enc_list([ord(c) for c in case['s']])}"]
-    if k == "legacy":
-        return [f"c18.legacy {enc_list([a for a, _ in case['ranges']])} {enc_list([b for _, b in case['ranges']])}"]
+    if k == "datetime":  # the direct call of the parser, and the same string as a page tag read through ImageStack
+        return [f"c18.decode {enc_list([ord(c) for c in case['s']])}"] * 2
+    if k == "legacy":  # the direct call of the helper, and the same ranges as the tags of a legacy file read through ImageStack
+        return [f"c18.legacy {enc_list([a for a, _ in case['ranges']])} {enc_list([b for _, b in case['ranges']])}"] * 2
     raise ValueError(k)
 
 
 def agree(case, i, ia, ma):
+    if ia == "?":
+        return True  # an observation that could not be made (private name not reachable / no public route for this input)
     if case["kind"] in ("kymo", "scan") and "derive_error" in case.get("_obs", {}):
         return True  # the derivation itself was refused (C06's business): nothing was exported, nothing to compare
     if ia == "not-written" and i > 0:
@@ -1037,6 +1388,8 @@ def oracle(case, ia):
 
 def nontrivial(case, ia):
     k = case["kind"]
+    if not observed(ia):
+        return False
     if k == "stack":
         spec = case["spec"]
         return bool(case["prog"]) or spec_legacy(spec) or isinstance(spec["exposure"], list) or len(spec["files"]) > 1
@@ -1044,6 +1397,8 @@ def nontrivial(case, ia):
         return True
     if k == "mixin":
         lo, hi = LIMITS[case["dtype"]]
+        if ia[0] == "?" and ia[3] == "?":
+            return False  # only the page ranges were observed
         return any(Fraction(v) < lo or Fraction(v) > hi or Fraction(v).denominator != 1 for v in case["values"]) or case["dtype"] == "f32"
     return True
 
@@ -1578,7 +1933,7 @@ def extra_coverage(results):
         c = r["case"]
         k = c["kind"]
         kinds[k] = kinds.get(k, 0) + 1
-        a = r["impl"][0]
+        a = next((x for x in r["impl"] if x != "?"), "?")
         key = "ok" if (a.startswith("ok") or a.startswith("[") or re.fullmatch(r"\d+:\d+", a)) else a
         outcomes[f"{k}:{key}"] = outcomes.get(f"{k}:{key}", 0) + 1
         if "dtype" in c:
@@ -1598,7 +1953,14 @@ def extra_coverage(results):
                 derived[o[0]] = derived.get(o[0], 0) + 1
             if "derive_error" in c.get("_obs", {}):
                 derived["(derivation refused, nothing exported)"] = derived.get("(derivation refused, nothing exported)", 0) + 1
+    unobserved = sum(1 for r in results for a in r["impl"] if a == "?")
     return {
+        "observations_not_made": {
+            "count": unobserved,
+            "note": "answers '?': a private helper is not reachable under its name (then every direct observation of the mixin / datetime / legacy kinds), "
+                    "or an input has no public route (white space at the ends of a DateTime tag, an empty legacy file, magnitudes that a scan's "
+                    "running sums do not carry side by side, ranges that cannot be written as tags); ignored by agree / oracle",
+        },
         "case_kinds": kinds, "outcomes": outcomes, "dtype_clip": dtypes, "stack_program_ops": ops_n, "stack_colours": colours,
         "stack_exposure_modes": exposure_modes, "stack_pages": {str(k): v for k, v in sorted(sizes.items())},
         "confocal_derivations": derived,
